@@ -106,6 +106,18 @@ func fill(n, kind int) []byte {
 			if i%2 == 1 {
 				b[i] = 0x80
 			}
+		case 4:
+			b[i] = byte(255 - i)
+		case 5:
+			if i%7 == 0 {
+				b[i] = 'A'
+			}
+		case 6:
+			b[i] = 0x7F
+		case 7:
+			if i < 3 {
+				b[i] = 1
+			}
 		}
 	}
 	return b
@@ -236,8 +248,17 @@ func main() {
 		if shape {
 			lim = ext + 12
 		}
+		nfill := 4
+		if r.Thorough() {
+			nfill = 8
+			if !shape {
+				lim = 300
+			} else {
+				lim = ext + 40
+			}
+		}
 		for n := 0; n <= lim; n++ {
-			for k := 0; k < 4; k++ {
+			for k := 0; k < nfill; k++ {
 				for _, v2 := range []bool{false, true} {
 					if !v2 && k > 1 && n != base {
 						continue
